@@ -77,9 +77,11 @@ func main() {
 	if err := json.Unmarshal(b, &script); err != nil {
 		fatal("script: %v", err)
 	}
-	// never outlive a wedged host by much
+	// never outlive a wedged host by much (the runner kills the process group
+	// of a host that hits its ceiling, 240 s at most; this is for a runner
+	// that died)
 	go func() {
-		time.Sleep(150 * time.Second)
+		time.Sleep(330 * time.Second)
 		fatal("watchdog")
 	}()
 	serve()
@@ -164,6 +166,9 @@ func perform(step, method string, seqid int32) {
 		// (exit-before-read lands here when the host skipped the step the
 		// plugin was waiting for: the request is read, nothing is sent)
 		exit()
+	case fplab.KFlood:
+		flood(step, &st)
+		exit()
 	case fplab.KGarbageFrame:
 		frame = refcodec.Frame(st.Bytes)
 	case fplab.KGarbageRaw:
@@ -190,9 +195,26 @@ func perform(step, method string, seqid int32) {
 		d = err.Error()
 	}
 	logEv(fplab.Event{Ev: fplab.EvReply, Step: step, Kind: st.Kind, Detail: d})
+	if st.FloodsAfter(step) {
+		logEv(fplab.Event{Ev: fplab.EvFault, Step: step, Kind: fplab.KReplyFlood})
+		flood(step, &st)
+		exit()
+	}
 	if st.Kind == fplab.KExitAfterReply {
 		exit()
 	}
+}
+
+// flood writes the junk of the step in one write: with more than a pipe
+// buffer of it the call returns only when the host has read the junk or has
+// closed its end (EPIPE; SIGPIPE is ignored).
+func flood(step string, st *fplab.Step) {
+	_, err := os.Stdout.Write(fplab.FloodBytes(st.FloodPat, st.Flood))
+	d := ""
+	if err != nil {
+		d = err.Error()
+	}
+	logEv(fplab.Event{Ev: fplab.EvFlood, Step: step, Detail: d})
 }
 
 func writeAll(b []byte, st *fplab.Step) error {
